@@ -17,6 +17,11 @@ CPU_BUDGET = 8.0
 
 def explore_and_export(src):
     """ls at the root and at every node reachable through printed names, then export. -> outcome class string"""
+    if isinstance(src, str):
+        d_ = os.path.dirname(src)
+        in_bytes = sum(os.path.getsize(os.path.join(d_, f)) for f in os.listdir(d_) if os.path.isfile(os.path.join(d_, f)))
+    else:
+        in_bytes = len(src)
     img = tree.open_image(src)
     n = 0
 
@@ -24,6 +29,9 @@ def explore_and_export(src):
         nonlocal n
         out = tree.ls(img, "/".join(tokens))
         n += 1
+        # what a listing prints is bounded by what was read, too (names, a fixed number of columns)
+        if len(out) > 16 * in_bytes + (1 << 20):
+            raise OutputNotProportional(f"a listing of {len(out)} characters for an input of {in_bytes} bytes")
         names = parse_table(out)
         if names and depth < 4 and n < 200:
             for nm in names[:40]:
@@ -239,12 +247,19 @@ def run_cue(case):
 
 # ----------------------------------------------------------------------------- large text inputs
 def bigtext_cases():
-    """text files of 1-3 MB with very many short lines (the cue-sheet reader sees every text file first): work must stay
+    """text files of 1-3 MB with very many short lines, and cue sheets of 300 KB with three very long equal titles (the cue-sheet reader sees every text file first): work must stay
     proportional to the size -- each of these is read in well under a second by a linear reader"""
     out = []
     for what, n in (("rem", 400000), ("blank", 1500000), ("letter", 600000), ("track", 6000), ("index", 200000), ("title", 150000),
                     ("ff", 600000), ("crlf", 500000)):
         out.append({"what": what, "n": n})
+    # many tracks and ONE very long title (a table whose every row is padded to its widest cell)
+    out.append({"what": "widetable", "n": 600, "title": 100000})
+    # few but very LONG lines: two tracks (also three) with the same title, made of 100 000 repetitions of a character run that
+    # naming code treats specially (separators of an L/R ending, dots, blanks, brackets), bare and with an ending behind it
+    for run in ("-", " ", " -", ". ", ".", "_", "(2) ", "a", "- L", "L-", "\t"):
+        for tail in ("", "L", "xL", " R ", ".", "b"):
+            out.append({"what": "longtitle", "run": run, "tail": tail, "n": 100000 // len(run)})
     return out
 
 
@@ -261,6 +276,12 @@ def bigtext_bytes(c):
     if c["what"] == "crlf":
         return b"\r\n" * n
     head = b'FILE "disc.bin" BINARY\n'
+    if c["what"] == "widetable":
+        return head + b"".join(b"  TRACK %02d AUDIO\n" % (k % 99 + 1) + (b'    TITLE "%s"\n' % (b"x" * c["title"]) if k == 0 else b"") +
+                               b"    INDEX 01 00:%02d:%02d\n" % (k // 75, k % 75) for k in range(n))
+    if c["what"] == "longtitle":
+        t = (c["run"] * n + c["tail"]).encode()
+        return head + b"".join(b'  TRACK %02d AUDIO\n    TITLE "%s"\n    INDEX 01 00:00:%02d\n' % (k + 1, t, k) for k in range(3))
     if c["what"] == "track":
         return head + b"".join(b"  TRACK %02d AUDIO\n    INDEX 01 00:00:00\n" % (k % 99 + 1) for k in range(n))
     if c["what"] == "index":
@@ -387,7 +408,8 @@ def line_profile(fn):
         return local
 
     def tracer(frame, event, arg):
-        if event == "call" and "smpl_extract" in frame.f_code.co_filename:
+        # (code generated for the tool's dataclasses -- __eq__, __init__, __repr__ -- has the file name "<string>")
+        if event == "call" and ("smpl_extract" in frame.f_code.co_filename or frame.f_code.co_filename.startswith("<")):
             co = frame.f_code
             counts[(os.path.basename(co.co_filename), co.co_name, co.co_firstlineno)] += 1
             return local
@@ -466,7 +488,7 @@ class Check(CheckBase):
             "version, MDX cut in the middle, MODE1/2352 images cut at 10 odd lengths; thorough: ALL PAIRS of table faults (AKAI SAT x SAT, Roland FAT x FAT) and "
             "all pairs (table fault, pointer/entry fault). Every run = ls at the root and at every reachable node + export, "
             "under an 8 s CPU budget (clean run: 0.03-0.3 s) and an address-space limit (min(6 GiB, 60 % of RAM / workers)), and the bytes "
-            "written by export must stay below 4 x the input size + 1 MiB; (growth) 12 input families whose size "
+            "written by export must stay below 4 x the input size + 1 MiB, every listing below 16 x the input size + 1 MiB (a sheet of 600 tracks with one title of 100 000 characters); (growth) 12 input families whose size "
             "grows linearly with n (n CDDA tracks with one / distinct titles, n AKAI files with one / distinct names, n/2 L/R pairs, "
             "n volumes, one file of n sectors, n Roland samples with one / distinct names, 20n comment lines, a Roland FAT chain of 10n clusters that descends / zigzags) run at n and 2n "
             "(n=60; thorough also 150) under a line counter: no function of the tool may execute more than 3x the lines at 2n "
